@@ -141,7 +141,7 @@ func usesValue(in ssa.Instruction, v ssa.Value) bool {
 
 func runC12(e *Env) {
 	r := e.R
-	r.Rule("C12.R1", "own", "no use / send / store / second release of a message value after it was released (per function, all paths, defers modelled)", 45)
+	r.Rule("C12.R1", "own", "no use / send / store / second release of a message value after it was released (per function, all paths, defers modelled)", 30)
 	r.Rule("C12.R2", "paths", "received messages are released only when not hijacked; the hijack flag is monotone", 3)
 	r.Rule("C12.R3", "paths", "hijack before hand-over", 2)
 	r.Rule("C12.R4", "paths", "SetMessage releases once then replaces; Swap releases nothing; Swap callers keep the returned message accounted", 3)
